@@ -378,7 +378,8 @@ Inductive lookup_result := Found | NotFound | Malformed.     (* the chunk | Chun
 
 Definition dict_get_chunk (shape : list Z) (sl : list (Z * Z)) : lookup_result :=
   if existsb (fun sn => Generated.gen_dict_outside (fst (fst sn)) (snd (fst sn)) (snd sn)) (combine sl shape) then NotFound
-  else if forallb (fun sn => (0 <=? fst (fst sn)) && (fst (fst sn) <=? snd (fst sn)) && (snd (fst sn) <=? snd sn)) (combine sl shape)
+  else if forallb (fun sn => (0 <=? fst (fst sn)) && (fst (fst sn) <=? snd (fst sn)) &&
+                         ((fst (fst sn) =? snd (fst sn)) || (snd (fst sn) <=? snd sn))) (combine sl shape)
        then Found else Malformed.
 
 (* the request for chunk j of a chunk list (Model.Prune.cstart) *)
